@@ -15,11 +15,11 @@ def ColorOK (c : Str) : Prop := esc ∉ c ∧ ∃ body, c = body ++ ['m'] ∧ 'm
 /-- every column is wide enough for its longest cell -/
 theorem C20_wide (rows : List (List Cell)) (r : List Cell) (hr : r ∈ rows) (i : Nat) (c : Cell) (hc : r[i]? = some c) :
     c.text.length ≤ (widths rows).getD i 0 := by
-  sorry
+  exact text_le_widths rows r hr i c hc
 
 /-- the number of columns is the length of the longest row -/
 theorem C20_widths_length (rows : List (List Cell)) : (widths rows).length = (rows.map List.length).foldl max 0 := by
-  sorry
+  exact widths_length rows
 
 /-- ignoring colour codes, a row has the width of the table: the sum of the column widths plus two blanks per column -/
 theorem C20_row_width (ws : List Nat) (rowColor : Option Str) (cells : List Cell)
@@ -27,25 +27,38 @@ theorem C20_row_width (ws : List Nat) (rowColor : Option Str) (cells : List Cell
     (hp : ∀ c ∈ cells, Plain c.text) (hcol : ∀ c ∈ cells, ∀ k, c.color = some k → k = [] ∨ ColorOK k)
     (hrc : ∀ k, rowColor = some k → k = [] ∨ ColorOK k) :
     (visible (renderRow ws rowColor cells)).length = (ws.map (· + 2)).sum := by
-  sorry
+  have _ := hlen  -- not needed: cells beyond the last column are not printed
+  refine row_width ws rowColor cells hfit (fun c hc => (hp c hc).1) ?_ ?_
+  · intro c hc k hk
+    rcases hcol c hc k hk with h | ⟨_, body, hb, hm, _⟩
+    · exact Or.inl h
+    · exact Or.inr ⟨body, hb, hm⟩
+  · intro k hk
+    rcases hrc k hk with h | ⟨_, body, hb, hm, _⟩
+    · exact Or.inl h
+    · exact Or.inr ⟨body, hb, hm⟩
 
 /-- all lines of a rendered table have the same visible width -/
 theorem C20_aligned (rows : List (Option Str × List Cell))
     (hp : ∀ r ∈ rows, ∀ c ∈ r.2, Plain c.text)
     (hcol : ∀ r ∈ rows, (∀ k, r.1 = some k → k = [] ∨ ColorOK k) ∧ ∀ c ∈ r.2, ∀ k, c.color = some k → k = [] ∨ ColorOK k) :
     ∀ r ∈ rows, (visible (renderRow (widths (rows.map (·.2))) r.1 r.2)).length = ((widths (rows.map (·.2))).map (· + 2)).sum := by
-  sorry
+  intro r hr
+  have hmem : r.2 ∈ rows.map (·.2) := List.mem_map.2 ⟨r, hr, rfl⟩
+  exact C20_row_width _ r.1 r.2 (length_le_widths_length _ _ hmem)
+    (fun i c hc => text_le_widths _ _ hmem i c hc) (hp r hr) (hcol r hr).2 (hcol r hr).1
 
 /-- the rendered text is the rows' lines joined by single line breaks, one line per row, when the table has at least
     one column (with no column every row is empty and the text collapses to the empty string) -/
 theorem C20_lines (rows : List (Option Str × List Cell)) (hw : widths (rows.map (·.2)) ≠ []) :
     render rows = (List.intersperse ['\n'] (rows.map (fun r => renderRow (widths (rows.map (·.2))) r.1 r.2))).flatten := by
-  sorry
+  unfold render
+  exact foldl_lines _ rows (fun r _ => renderRow_ne_nil _ r.1 r.2 hw)
 
 /-- a sheet has one row per task shown: the given tasks and, when children are shown, all their descendants -/
 theorem C20_rows (ts : Nat → PTask) (fields : List Str) (children : Bool) (theme : Theme) (fuel level t : Nat) :
     (subtreeRows ts fields children theme fuel level t).length = shownCount ts children fuel t := by
-  sorry
+  exact subtreeRows_length ts fields children theme fuel level t
 
 /-- depth-first order and indentation: the first row of a subtree is the task's own row, whose `name` cell is the name
     indented by three blanks per level (None = empty), followed by the rows of its children's subtrees in list order
@@ -56,20 +69,28 @@ theorem C20_indent (ts : Nat → PTask) (fields : List Str) (children : Bool) (t
           if f == "name".toList then { text := List.replicate (3 * level) ' ' ++ ((ts t).name.getD []), color := some color : Cell }
           else { text := fieldValue ts t f, color := some color })) ::
       (if children then ((ts t).children.map (subtreeRows ts fields children theme fuel (level + 1))).flatten else []) := by
-  sorry
+  exact ⟨_, rfl⟩
 
 /-- dependency and parent columns show the linked ids; a link that leaves the WBS is marked external; the hidden WBS
     root is shown as nothing -/
 theorem C20_links (ts : Nat → PTask) (t l : Nat) :
     linkedId ts t l = (if (ts l).isRoot then [] else
       (ts l).idText ++ (if (ts l).owner = (ts t).owner then [] else "(external)".toList)) := by
-  sorry
+  unfold linkedId
+  by_cases h : (ts l).owner = (ts t).owner <;> simp [h]
 
 /-- an unknown field gives an empty cell (so the column is as wide as its header) -/
 theorem C20_unknown_field (ts : Nat → PTask) (t : Nat) (f : Str)
     (hstd : f ∉ ["predecessors", "successors", "parent", "id", "estimate", "spent"].map String.toList)
     (h1 : ∀ p ∈ (ts t).dict, p.1 ≠ f) (h2 : ∀ p ∈ (ts t).dict, p.1 ≠ f.map asciiLower) :
     fieldValue ts t f = [] := by
-  sorry
+  simp only [List.map_cons, List.map_nil, List.mem_cons, List.not_mem_nil, or_false, not_or] at hstd
+  obtain ⟨e1, e2, e3, e4, e5, e6⟩ := hstd
+  have n1 : (ts t).dict.find? (fun p => p.1 == f) = none :=
+    List.find?_eq_none.2 (fun p hp => by simpa using h1 p hp)
+  have n2 : (ts t).dict.find? (fun p => p.1 == f.map asciiLower) = none :=
+    List.find?_eq_none.2 (fun p hp => by simpa using h2 p hp)
+  unfold fieldValue
+  simp only [beq_iff_eq, e1, e2, e3, e4, e5, e6, if_false, n1, n2]
 
 end Pj.Print
